@@ -296,3 +296,197 @@ Section Ops.
     Qed.
   End Arms.
 End Ops.
+
+(* ------------------------------------------------------------------ built-ins *)
+(* the built-ins of EvalInst.builtin_impl proved to respect the relation: the callback-taking ones
+   and the pure ones that never apply Value::equals *)
+Definition biok_inst (b : builtin) : bool :=
+  match b with
+  | B_map | B_filter | B_reduce | B_every | B_some
+  | B_abs | B_floor | B_ceil | B_trunc | B_sqrt | B_typeof | B_arity | B_to_bool
+  | B_ugt | B_ult | B_ugte | B_ulte | B_any | B_all => true
+  | _ => false
+  end.
+
+Section Builtins.
+  Variable opok : binop -> bool.
+  Variable biok : builtin -> bool.
+  Variable nanfix : bool.
+  Notation vrel := (vrel opok biok nanfix).
+  Notation lrel := (lrel opok biok nanfix).
+  Notation orel := (orel opok biok nanfix).
+  Notation cb_rel := (cb_rel opok biok nanfix).
+
+  Variable cb cb' : callback.
+  Hypothesis Hcb : cb_rel cb cb'.
+
+  Lemma cb_args_rel two x x' i : vrel x x' -> lrel (cb_args two x i) (cb_args two x' i).
+  Proof. intros H. unfold cb_args. destruct two; repeat constructor; assumption. Qed.
+
+  (* one callback step on both sides *)
+  Ltac cbstep f f' xs xs' st st' Hf Ha :=
+    pose proof (Hcb f f' f f' xs xs' st st' Hf Ha) as Hc;
+    destruct (cb f f xs st) as [o s1]; destruct (cb' f' f' xs' st') as [o' s1']; cbn [fst] in Hc;
+    destruct o as [a| | | |], o' as [a0| | | |]; cbn in Hc; try contradiction; try exact I.
+
+  Lemma map_loop_rel f f' two l l' : vrel f f' -> lrel l l' -> forall i st st',
+    orel_gen lrel (fst (map_loop cb f two l i st)) (fst (map_loop cb' f' two l' i st')).
+  Proof.
+    intros Hf HL. induction HL as [|x x' l l' Hx _ IH]; intros i st st'; cbn [map_loop]; [constructor|].
+    cbstep f f' (cb_args two x i) (cb_args two x' i) st st' Hf (cb_args_rel two x x' i Hx).
+    specialize (IH (S i) s1 s1'). destruct (map_loop cb f two l (S i) s1) as [o2 s2], (map_loop cb' f' two l' (S i) s1') as [o2' s2'].
+    cbn [fst] in IH. destruct o2, o2'; cbn in IH; try contradiction; try exact I. cbn. constructor; assumption.
+  Qed.
+  Lemma filter_loop_rel f f' two l l' : vrel f f' -> lrel l l' -> forall i st st',
+    orel_gen lrel (fst (filter_loop cb f two l i st)) (fst (filter_loop cb' f' two l' i st')).
+  Proof.
+    intros Hf HL. induction HL as [|x x' l l' Hx _ IH]; intros i st st'; cbn [filter_loop]; [constructor|].
+    cbstep f f' (cb_args two x i) (cb_args two x' i) st st' Hf (cb_args_rel two x x' i Hx).
+    rewrite <- (vrel_as_bool _ _ _ _ _ Hc). destruct (as_bool a) as [keep| | | |]; cbn; try exact I.
+    specialize (IH (S i) s1 s1'). destruct (filter_loop cb f two l (S i) s1) as [o2 s2], (filter_loop cb' f' two l' (S i) s1') as [o2' s2'].
+    cbn [fst] in IH. destruct o2, o2'; cbn in IH; try contradiction; try exact I. cbn.
+    destruct keep; [constructor; assumption|assumption].
+  Qed.
+  Lemma reduce_loop_rel f f' three l l' : vrel f f' -> lrel l l' -> forall i acc acc' st st', vrel acc acc' ->
+    orel (fst (reduce_loop cb f three l i acc st)) (fst (reduce_loop cb' f' three l' i acc' st')).
+  Proof.
+    intros Hf HL. induction HL as [|x x' l l' Hx _ IH]; intros i acc acc' st st' Ha; cbn [reduce_loop]; [exact Ha|].
+    assert (Hargs : lrel (if three then [acc; x; idx_num i] else [acc; x]) (if three then [acc'; x'; idx_num i] else [acc'; x']))
+      by (destruct three; repeat constructor; assumption).
+    cbstep f f' (if three then [acc; x; idx_num i] else [acc; x]) (if three then [acc'; x'; idx_num i] else [acc'; x']) st st' Hf Hargs.
+    apply IH. exact Hc.
+  Qed.
+  Lemma every_loop_rel f f' two l l' : vrel f f' -> lrel l l' -> forall i st st',
+    orel (fst (every_loop cb f two l i st)) (fst (every_loop cb' f' two l' i st')).
+  Proof.
+    intros Hf HL. induction HL as [|x x' l l' Hx _ IH]; intros i st st'; cbn [every_loop]; [constructor|].
+    cbstep f f' (cb_args two x i) (cb_args two x' i) st st' Hf (cb_args_rel two x x' i Hx).
+    rewrite <- (vrel_as_bool _ _ _ _ _ Hc). destruct (as_bool a) as [[|]| | | |]; cbn; try exact I; [apply IH|constructor].
+  Qed.
+  Lemma some_loop_rel f f' two l l' : vrel f f' -> lrel l l' -> forall i st st',
+    orel (fst (some_loop cb f two l i st)) (fst (some_loop cb' f' two l' i st')).
+  Proof.
+    intros Hf HL. induction HL as [|x x' l l' Hx _ IH]; intros i st st'; cbn [some_loop]; [constructor|].
+    cbstep f f' (cb_args two x i) (cb_args two x' i) st st' Hf (cb_args_rel two x x' i Hx).
+    rewrite <- (vrel_as_bool _ _ _ _ _ Hc). destruct (as_bool a) as [[|]| | | |]; cbn; try exact I; [constructor|apply IH].
+  Qed.
+
+  Lemma arg_rel args args' i : lrel args args' -> orel (arg args i) (arg args' i).
+  Proof.
+    intros H. unfold arg. pose proof (lrel_nth_error _ _ _ args args' i H) as G.
+    destruct (nth_error args i), (nth_error args' i); try contradiction; cbn; auto.
+  Qed.
+  Lemma as_list_rel v v' : vrel v v' -> orel_gen lrel (as_list v) (as_list v').
+  Proof. destruct 1; cbn; auto. Qed.
+  Lemma hof_prelude_rel args args' : lrel args args' ->
+    orel_gen (fun p p' => vrel (fst p) (fst p') /\ lrel (snd p) (snd p')) (hof_prelude args) (hof_prelude args').
+  Proof.
+    intros H. unfold hof_prelude.
+    pose proof (arg_rel args args' 1 H) as H1. destruct (arg args 1), (arg args' 1); cbn in H1; try contradiction; try exact I.
+    cbn [obind].
+    pose proof (arg_rel args args' 0 H) as H0. destruct (arg args 0), (arg args' 0); cbn in H0; try contradiction; try exact I.
+    cbn [obind].
+    destruct H0; cbn [as_list obind]; try exact I.
+    unfold as_function. rewrite <- (vrel_is_function _ _ _ _ _ H1).
+    destruct (is_function a); cbn; [|exact I]. split; assumption.
+  Qed.
+
+  (* a pure built-in that respects the relation on its argument vector *)
+  Lemma pure_bi_rel (f : list value -> outcome value) args args' st st' :
+    orel (f args) (f args') -> orel (fst (pure_bi f args st)) (fst (pure_bi f args' st')).
+  Proof. intros H. exact H. Qed.
+
+  Lemma num1_rel g args args' : lrel args args' -> orel (num1 g args) (num1 g args').
+  Proof.
+    intros H. unfold num1. pose proof (arg_rel args args' 0 H) as H0.
+    destruct (arg args 0), (arg args' 0); cbn in H0; try contradiction; try exact I. cbn [obind].
+    rewrite <- (vrel_as_number _ _ _ _ _ H0). destruct (as_number a); cbn; try exact I. constructor.
+  Qed.
+  Lemma cmp2_rel g args args' : (forall a a' b b', vrel a a' -> vrel b b' -> g a b = g a' b') ->
+    lrel args args' -> orel (cmp2 g args) (cmp2 g args').
+  Proof.
+    intros Hg H. unfold cmp2. pose proof (arg_rel args args' 0 H) as H0.
+    destruct (arg args 0), (arg args' 0); cbn in H0; try contradiction; try exact I. cbn [obind].
+    pose proof (arg_rel args args' 1 H) as H1.
+    destruct (arg args 1), (arg args' 1); cbn in H1; try contradiction; try exact I. cbn.
+    rewrite (Hg _ _ _ _ H0 H1). constructor.
+  Qed.
+  Lemma boolish_rel l l' : lrel l l' -> map boolish l = map boolish l'.
+  Proof. induction 1 as [|x x' l l' Hx _ IH]; cbn; [reflexivity|]. f_equal; [destruct Hx; reflexivity|exact IH]. Qed.
+  Lemma existsb_map {A} (p : A -> bool) l : existsb p l = existsb (fun b => b) (map p l).
+  Proof. induction l; cbn; congruence. Qed.
+  Lemma forallb_map {A} (p : A -> bool) l : forallb p l = forallb (fun b => b) (map p l).
+  Proof. induction l; cbn; congruence. Qed.
+
+  (* the built-in dispatcher of EvalInst.v *)
+  Theorem builtin_impl_rel b args args' st st' : biok_inst b = true -> lrel args args' ->
+    orel (fst (builtin_impl cb b args st)) (fst (builtin_impl cb' b args' st')).
+  Proof.
+    intros Hb Ha.
+    assert (Hcmp : forall g, (forall a a' b b', vrel a a' -> vrel b b' -> g a b = g a' b') ->
+              orel (fst (pure_bi (cmp2 g) args st)) (fst (pure_bi (cmp2 g) args' st')))
+      by (intros g Hg; apply pure_bi_rel, cmp2_rel; assumption).
+    destruct b; try discriminate; cbn [builtin_impl];
+      try (apply pure_bi_rel, num1_rel; exact Ha).
+    - (* any *) apply pure_bi_rel. unfold bi_any. pose proof (arg_rel args args' 0 Ha) as H0.
+      destruct (arg args 0), (arg args' 0); cbn in H0; try contradiction; try exact I. cbn [obind].
+      destruct H0; cbn [as_list obind]; try exact I.
+      cbn. rewrite (existsb_map boolish l), (existsb_map boolish l'), (boolish_rel l l'); [constructor|assumption].
+    - (* all *) apply pure_bi_rel. unfold bi_all. pose proof (arg_rel args args' 0 Ha) as H0.
+      destruct (arg args 0), (arg args' 0); cbn in H0; try contradiction; try exact I. cbn [obind].
+      destruct H0; cbn [as_list obind]; try exact I.
+      cbn. rewrite (forallb_map boolish l), (forallb_map boolish l'), (boolish_rel l l'); [constructor|assumption].
+    - (* map *) unfold bi_map. pose proof (hof_prelude_rel args args' Ha) as HP.
+      destruct (hof_prelude args) as [[f l]| | | |], (hof_prelude args') as [[f' l']| | | |]; cbn in HP; try contradiction; try exact I.
+      destruct HP as [Hf Hl]. rewrite <- (vrel_accepts opok biok nanfix _ _ 2 Hf).
+      pose proof (map_loop_rel f f' (accepts f 2) l l' Hf Hl 0 st st') as HM.
+      destruct (map_loop cb f (accepts f 2) l 0 st) as [o s1], (map_loop cb' f' (accepts f 2) l' 0 st') as [o' s1'].
+      cbn [fst] in *. apply omap_VList_rel. exact HM.
+    - (* reduce *) unfold bi_reduce.
+      pose proof (arg_rel args args' 1 Ha) as H1. destruct (arg args 1), (arg args' 1); cbn in H1; try contradiction; try exact I.
+      cbn [obind].
+      pose proof (arg_rel args args' 2 Ha) as H2. destruct (arg args 2), (arg args' 2); cbn in H2; try contradiction; try exact I.
+      cbn [obind].
+      pose proof (arg_rel args args' 0 Ha) as H0. destruct (arg args 0), (arg args' 0); cbn in H0; try contradiction; try exact I.
+      cbn [obind].
+      destruct H0; cbn [as_list obind]; try exact I.
+      unfold as_function. rewrite <- (vrel_is_function _ _ _ _ _ H1).
+      destruct (is_function a); cbn; [|exact I].
+      rewrite <- (vrel_accepts opok biok nanfix _ _ 3 H1). apply reduce_loop_rel; assumption.
+    - (* filter *) unfold bi_filter. pose proof (hof_prelude_rel args args' Ha) as HP.
+      destruct (hof_prelude args) as [[f l]| | | |], (hof_prelude args') as [[f' l']| | | |]; cbn in HP; try contradiction; try exact I.
+      destruct HP as [Hf Hl]. rewrite <- (vrel_accepts opok biok nanfix _ _ 2 Hf).
+      pose proof (filter_loop_rel f f' (accepts f 2) l l' Hf Hl 0 st st') as HM.
+      destruct (filter_loop cb f (accepts f 2) l 0 st) as [o s1], (filter_loop cb' f' (accepts f 2) l' 0 st') as [o' s1'].
+      cbn [fst] in *. apply omap_VList_rel. exact HM.
+    - (* every *) unfold bi_every. pose proof (hof_prelude_rel args args' Ha) as HP.
+      destruct (hof_prelude args) as [[f l]| | | |], (hof_prelude args') as [[f' l']| | | |]; cbn in HP; try contradiction; try exact I.
+      destruct HP as [Hf Hl]. rewrite <- (vrel_accepts opok biok nanfix _ _ 2 Hf). apply every_loop_rel; assumption.
+    - (* some *) unfold bi_some. pose proof (hof_prelude_rel args args' Ha) as HP.
+      destruct (hof_prelude args) as [[f l]| | | |], (hof_prelude args') as [[f' l']| | | |]; cbn in HP; try contradiction; try exact I.
+      destruct HP as [Hf Hl]. rewrite <- (vrel_accepts opok biok nanfix _ _ 2 Hf). apply some_loop_rel; assumption.
+    - (* to_bool *) apply pure_bi_rel. unfold bi_to_bool. pose proof (arg_rel args args' 0 Ha) as H0.
+      destruct (arg args 0), (arg args' 0); cbn in H0; try contradiction; try exact I. cbn [obind].
+      destruct H0; cbn; try exact I; constructor.
+    - (* typeof *) apply pure_bi_rel. unfold bi_typeof. pose proof (arg_rel args args' 0 Ha) as H0.
+      destruct (arg args 0), (arg args' 0); cbn in H0; try contradiction; try exact I. cbn.
+      rewrite (vrel_type_of _ _ _ _ _ H0). constructor.
+    - (* arity *) apply pure_bi_rel. unfold bi_arity. pose proof (arg_rel args args' 0 Ha) as H0.
+      destruct (arg args 0), (arg args' 0); cbn in H0; try contradiction; try exact I. cbn [obind].
+      rewrite <- (vrel_fn_arity _ _ _ _ _ H0). destruct (fn_arity a) as [[?|?|? ?]|]; cbn; try exact I; constructor.
+    - (* ugt *) apply Hcmp. intros a a' b0 b' Hx Hy. unfold ugt. now rewrite (compare_rel opok biok nanfix _ _ _ _ Hx Hy).
+    - apply Hcmp. intros a a' b0 b' Hx Hy. unfold ult. now rewrite (compare_rel opok biok nanfix _ _ _ _ Hx Hy).
+    - apply Hcmp. intros a a' b0 b' Hx Hy. unfold ugte. now rewrite (compare_rel opok biok nanfix _ _ _ _ Hx Hy).
+    - apply Hcmp. intros a a' b0 b' Hx Hy. unfold ulte. now rewrite (compare_rel opok biok nanfix _ _ _ _ Hx Hy).
+  Qed.
+
+  (* EvalFull.builtin_full: every arm covered by biok_inst falls through to builtin_impl.  The arms
+     that builtin_full adds (aggregates, list / string / record built-ins, sort_by / group_by /
+     count_by) are NOT covered yet: each needs one lemma `orel (bi_x args) (bi_x args')` (pure_bi_rel)
+     or a loop lemma in the style of map_loop_rel, and one more case below. *)
+  Theorem builtin_full_rel b args args' st st' : biok_inst b = true -> lrel args args' ->
+    orel (fst (builtin_full cb b args st)) (fst (builtin_full cb' b args' st')).
+  Proof.
+    intros Hb Ha. destruct b; try discriminate; cbn [builtin_full]; apply builtin_impl_rel; auto.
+  Qed.
+End Builtins.
